@@ -251,7 +251,16 @@ impl<'g> Cx<'g> {
                 self.g.note(&c.group);
                 return Ok((name, c.ty.clone()));
             }
-            return self.bail(span, format!("unknown identifier `{}` (not a local, a selected constant or an enum variant)", n));
+            // a unit struct (`ClientNotFound`)
+            let key = self.g.tkey(&self.file, n);
+            if let Some(info) = self.g.structs.get(&key) {
+                if info.fields.is_empty() && !info.view && info.ignored.is_empty() && !info.group.is_empty() {
+                    self.g.note(&info.group);
+                    let lt = lean_type_name(self.g, &self.ns, &key);
+                    return Ok((format!("({{ }} : {})", lt), Ty::Named(key)));
+                }
+            }
+            return self.bail(span, format!("unknown identifier `{}` (not a local, a selected constant, a unit struct or an enum variant)", n));
         }
         if segs.len() == 2 && segs[0] == "Duration" && segs[1] == "MAX" {
             return Ok(("RustSem.Duration.MAX".into(), Ty::Dur));
@@ -1418,6 +1427,11 @@ impl<'g> Cx<'g> {
                 }
                 return Ok((format!("(RustSem.Range.contains {} {})", r, x), Ty::Bool));
             }
+            // `#[derive(Clone)]` on a translated type: the identity on the representation
+            if name == "clone" && m.args.is_empty() && self.g.derive_clone.contains(n) {
+                stmts.extend(probe);
+                return Ok((r, rt.clone()));
+            }
             self.tmp_reset(saved);
             return self.bind_call(whole, stmts);
         }
@@ -1487,6 +1501,9 @@ impl<'g> Cx<'g> {
                     (Some(Ty::List(te, tk)), Ty::Int(8)) if matches!(**te, Ty::Int(8)) && (*k == ListKind::Vec || *k == ListKind::Bytes) && (*tk == ListKind::Vec || *tk == ListKind::Bytes) => {
                         Ok((r, Ty::List(te.clone(), tk.clone())))
                     }
+                    // no annotation (`let m = message.into();` of a `B: Into<Bytes>` parameter): the byte containers share
+                    // one representation, the value keeps its kind
+                    (None, Ty::Int(8)) if *k == ListKind::Vec || *k == ListKind::Bytes => Ok((r, rt.clone())),
                     _ => self.bail(whole.span(), "`.into()` is only supported between `Vec<u8>` and `Bytes` with a known target type"),
                 }
             }
@@ -1530,31 +1547,44 @@ impl<'g> Cx<'g> {
                 Ok((v, bt))
             }
             (Ty::List(t, ListKind::Iter), "filter", 1) => {
-                // `iter.filter(|x| e)` with a closure whose body is a pure expression
-                let (x, body) = match args[0] {
-                    syn::Expr::Closure(c) if c.inputs.len() == 1 && c.capture.is_none() => match &c.inputs[0] {
-                        syn::Pat::Ident(pi) if pi.subpat.is_none() => (pi.ident.to_string(), &*c.body),
-                        syn::Pat::Reference(pr) => match &*pr.pat {
-                            syn::Pat::Ident(pi) if pi.subpat.is_none() => (pi.ident.to_string(), &*c.body),
-                            o => return self.bail(o.span(), "unsupported closure parameter"),
-                        },
-                        o => return self.bail(o.span(), "unsupported closure parameter"),
-                    },
+                // `iter.filter(|pat| e)`: a pure boolean expression is `List.filter`; a body that calls translated fns
+                // (which may panic) is `RustSem.filterM` (evaluated eagerly, in order)
+                let (cpat, body) = match args[0] {
+                    syn::Expr::Closure(c) if c.inputs.len() == 1 && c.capture.is_none() => (&c.inputs[0], &*c.body),
                     o => return self.bail(o.span(), "only simple closures `|x| expr` are supported here"),
                 };
-                self.check_local_name(&x, args[0].span())?;
+                let mut cp: &syn::Pat = cpat;
+                while let syn::Pat::Reference(pr) = cp {
+                    cp = &pr.pat;
+                }
+                let (lp, binds) = self.pat(cp, t)?;
+                for (n, _) in &binds {
+                    self.check_local_name(n, args[0].span())?;
+                }
                 if !self.assigned_in_expr(body).is_empty() {
                     return self.bail(args[0].span(), "closure must not assign outer variables");
                 }
-                self.push_scope(vec![(x.clone(), (**t).clone())]);
+                if super::analysis::expr_leaves_fn(body) {
+                    return self.bail(args[0].span(), "`return` / `?` / labelled jumps are not supported in a closure");
+                }
+                self.push_scope(binds);
                 let mut bs: Vec<Stmt> = Vec::new();
                 let rb = self.expr(body, Some(&Ty::Bool), &mut bs);
                 self.pop_scope();
                 let (b, bt) = rb?;
-                if !bs.is_empty() || !matches!(bt, Ty::Bool) {
-                    return self.bail(args[0].span(), "the closure of `filter` must be a pure boolean expression");
+                if !matches!(bt, Ty::Bool) {
+                    return self.bail(args[0].span(), "the closure of `filter` must be a boolean expression");
                 }
-                Ok((format!("(List.filter (fun {} => {}) {})", lean_ident(&x), b, r), Ty::List(t.clone(), ListKind::Iter)))
+                if bs.is_empty() {
+                    Ok((format!("(List.filter (fun {} => {}) {})", Self::paren_pat(&lp), b, r), Ty::List(t.clone(), ListKind::Iter)))
+                } else {
+                    let v = self.fresh();
+                    stmts.push(Stmt::Bind(
+                        v.clone(),
+                        Doc::Lam(format!("RustSem.filterM {}", r), format!("fun {}", Self::paren_pat(&lp)), Box::new(Doc::seq(bs, Doc::atom(format!("pure {}", b))))),
+                    ));
+                    Ok((v, Ty::List(t.clone(), ListKind::Iter)))
+                }
             }
             (Ty::List(t, ListKind::Iter), "map", 1) => {
                 // `iter.map(|pat| e)` with a closure whose body is a pure expression
@@ -1633,7 +1663,19 @@ impl<'g> Cx<'g> {
             (Ty::Map(_, _, _), "is_empty", 0) => Ok((format!("(RustSem.is_empty {})", r), Ty::Bool)),
             (Ty::Map(kt, vt, hash), "iter", 0) => {
                 if *hash {
-                    return self.bail(whole.span(), "iteration over a `HashMap` is rejected: the model is key-sorted and the iteration order of a HashMap is unspecified");
+                    // only where the manifest says that the result does not depend on the order or is claimed up to a
+                    // permutation only
+                    let rtxt = match whole {
+                        syn::Expr::MethodCall(mc) => self.src(mc.receiver.span(), String::new()),
+                        _ => String::new(),
+                    };
+                    let ok = crate::manifest::HASHMAP_ITER_ORDER_OK.iter().any(|(fl, d, rc, _)| *fl == self.file && *d == self.fn_disp && *rc == rtxt);
+                    if !ok {
+                        return self.bail(
+                            whole.span(),
+                            "iteration over a `HashMap` is rejected: the model is key-sorted and the iteration order of a HashMap is unspecified (no HASHMAP_ITER_ORDER_OK entry)",
+                        );
+                    }
                 }
                 Ok((r, Ty::List(Box::new(Ty::Tuple(vec![(**kt).clone(), (**vt).clone()])), ListKind::Iter)))
             }
